@@ -95,6 +95,14 @@ func checkC17Engine(c Node) Verdict {
 		if v.SQL == "" {
 			v.SQL = sql
 		}
+		// a decoy first: the same text under another option set (its outcome does not matter) - what an
+		// option does to a text must not depend on what an earlier call did to the same text
+		decoy := []string{"arr"}
+		if mask == 2 {
+			decoy = []string{"pg"}
+		}
+		Run(FromTagged(c["doc"]).(map[string]any), sql, false, Opts(decoy, nil, nil)...)
+		v.Execs++
 		doc := FromTagged(c["doc"]).(map[string]any)
 		out := Run(doc, sql, false, Opts(opts, nil, nil)...)
 		v.Execs++
